@@ -164,6 +164,9 @@ pub struct Engine<'a> {
     /// C16 image mode: when set, every quiescent point (`check_committed`) hands the directory and
     /// the oracle's committed map to `image::snapshot` (behaviour is unchanged when `None`)
     pub image_sink: Option<crate::image::Snapshots>,
+    /// C16 image mode: mostly 600..1300-byte inline values, so that leaves hold 3-4 keys and a few
+    /// thousand keys need several bottom-level branch nodes (default false: unchanged generator)
+    pub fat_values: bool,
 }
 
 fn chance_list<T: Clone>(rng: &mut Rng, v: &[T]) -> T {
@@ -193,6 +196,7 @@ impl<'a> Engine<'a> {
             no_dread: false,
             events: BTreeMap::new(),
             image_sink: None,
+            fat_values: false,
         };
         e.pool = gen_keyset(&mut e.rng, 40);
         e.open_db();
@@ -263,6 +267,16 @@ impl<'a> Engine<'a> {
     }
 
     /// a batch over the given view: (key, access) sorted by key, plus the write list
+    fn gen_val(&mut self) -> Val {
+        if self.fat_values && self.rng.chance(3, 4) {
+            let len = self.rng.range(600, 1300);
+            let mut v = gen_value(&mut self.rng, false);
+            v.resize(len, 0x5a);
+            return v;
+        }
+        gen_value(&mut self.rng, self.big)
+    }
+
     fn gen_batch(&mut self, view: &Map, max: usize) -> (Vec<(Key, KeyReadWrite)>, Vec<(Key, Option<Val>)>) {
         let n = self.rng.range(1, (max * self.scale).max(1));
         let mut acc: BTreeMap<Key, KeyReadWrite> = BTreeMap::new();
@@ -275,8 +289,8 @@ impl<'a> Engine<'a> {
                 0 | 1 => KeyReadWrite::Read(cur),
                 2 | 3 => KeyReadWrite::Write(None),
                 4 => KeyReadWrite::ReadThenWrite(cur, None),
-                5 => KeyReadWrite::ReadThenWrite(cur, Some(gen_value(&mut self.rng, self.big))),
-                _ => KeyReadWrite::Write(Some(gen_value(&mut self.rng, self.big))),
+                5 => KeyReadWrite::ReadThenWrite(cur, Some(self.gen_val())),
+                _ => KeyReadWrite::Write(Some(self.gen_val())),
             };
             acc.insert(k, a);
         }
